@@ -152,7 +152,7 @@ def generate(rng, opts):
             if opts.get("no_known") and fk in ("ext_write", "bytecode"):
                 fk = "ext"
             if fk == "git":
-                how = rng.choice(["oserror", "nonzero", "kbi_before", "kbi_after", "killed_midway"])
+                how = rng.choice(["oserror", "nonzero", "kbi_before", "kbi_after", "killed_midway", "fails_after_branch"])
                 at = rng.choice(["assert", "toplevel", "tag", "add", "add"])
                 if False and at == "add" and how == "kbi_after":
                     how = "kbi_before"
@@ -375,6 +375,20 @@ class SubprocessShim:
                     if f["how"] == "kbi_after":
                         fn(args, **kw)
                         raise KeyboardInterrupt
+                    if f["how"] == "fails_after_branch":
+                        # `git worktree add -b` creates the branch first; when populating the worktree then fails (a
+                        # required smudge filter that errors out, a full disk) git removes the worktree it had started
+                        # - not the branch - and exits with 128 (observed with filter.<x>.required, git 2.39)
+                        if site == "add":
+                            a = list(args)
+                            i = a.index("add")
+                            quiet = {"stdout": real_subprocess.DEVNULL, "stderr": real_subprocess.DEVNULL, "env": kw.get("env") or _env()}
+                            if real_subprocess.run(a, **quiet).returncode == 0:
+                                real_subprocess.run([*a[: i - 1], "worktree", "remove", "--force", "--force", a[-2]], **quiet)
+                        if kw.get("check") or fn is real_subprocess.check_output:
+                            raise real_subprocess.CalledProcessError(128, args, output=b"", stderr=b"fatal: smudge filter failed (injected)")
+                        text = kw.get("text")
+                        return real_subprocess.CompletedProcess(args, 128, stdout="" if text else b"", stderr="fatal: smudge filter failed (injected)" if text else b"fatal: smudge filter failed (injected)")
                     if f["how"] == "killed_midway":
                         # the git child dies (SIGKILL: OOM killer, a supervisor's timeout) in the middle of its work
                         if site == "add":
